@@ -11,6 +11,10 @@
            `b if not c else a`; `not` is folded for `not x`, `==`/`!=`, `is`/`is not`, `in`/`not in` (measures dependence on guard polarity)
   comp2loop every `name = [e for v in it if c]` / `{...}` / `{k: v ...}` (one generator, inside a function, comprehension variables
            not used elsewhere in the function) becomes `name = []` + a for loop with append / add / item assignment
+  reorderdefs the methods of every class are put into reverse alphabetical order (the slots of the body that hold methods keep holding
+           methods; classes with @overload / @x.setter / decorator references to sibling methods are left alone)
+  elseafterreturn inside functions, `if t: ...; return/raise` followed by more statements of the same block becomes
+           `if t: ... else: <the rest of the block>` (the style some linters forbid and others enforce)
 Remove <dest> after use."""
 import ast
 import pathlib
@@ -216,6 +220,46 @@ def main():
             for fn in [x for x in ast.walk(tree) if isinstance(x, (ast.FunctionDef, ast.AsyncFunctionDef))]:
                 # only outermost handling per function body; nested functions are visited on their own
                 rewrite_fn(fn)
+            ast.fix_missing_locations(tree)
+        if mode == "reorderdefs":
+            for cls in [x for x in ast.walk(tree) if isinstance(x, ast.ClassDef)]:
+                idx = [i for i, st in enumerate(cls.body) if isinstance(st, (ast.FunctionDef, ast.AsyncFunctionDef))]
+                fns = [cls.body[i] for i in idx]
+                names = {f.name for f in fns}
+                if len(names) != len(fns):
+                    continue      # overloads / setters re-define a name
+                if any(isinstance(nm, ast.Name) and nm.id in names for f in fns for d in f.decorator_list for nm in ast.walk(d)):
+                    continue
+                # a class-body statement between the methods may read a method (x = staticmethod(f)): keep such classes
+                others = [st for st in cls.body if not isinstance(st, (ast.FunctionDef, ast.AsyncFunctionDef))]
+                if any(isinstance(nm, ast.Name) and nm.id in names for st in others for nm in ast.walk(st)):
+                    continue
+                if len(fns) > 1:
+                    for i, f in zip(idx, sorted(fns, key=lambda f: f.name, reverse=True)):
+                        cls.body[i] = f
+                    n += 1
+        if mode == "elseafterreturn":
+            def fold(stmts):
+                nonlocal n
+                out = list(stmts)
+                for i, st in enumerate(out):
+                    if isinstance(st, ast.If) and not st.orelse and isinstance(st.body[-1], (ast.Return, ast.Raise)) and i + 1 < len(out):
+                        rest = out[i + 1:]
+                        # (a nested def in the rest stays visible: Python scoping is per function, not per block)
+                        st.orelse = fold(rest)
+                        st.body = fold(st.body)
+                        n += 1
+                        return out[:i + 1]
+                    for field in ("body", "orelse", "finalbody"):
+                        v = getattr(st, field, None)
+                        if isinstance(v, list) and v and isinstance(v[0], ast.stmt) and not isinstance(st, (ast.FunctionDef, ast.AsyncFunctionDef, ast.ClassDef)):
+                            setattr(st, field, fold(v))
+                    if isinstance(st, ast.Try):
+                        for h in st.handlers:
+                            h.body = fold(h.body)
+                return out
+            for fn in [x for x in ast.walk(tree) if isinstance(x, (ast.FunctionDef, ast.AsyncFunctionDef))]:
+                fn.body = fold(fn.body)
             ast.fix_missing_locations(tree)
         p.write_text(ast.unparse(tree) + "\n")
     print(f"{mode}: wrote {dest} ({n} locals renamed)")
